@@ -26,6 +26,8 @@ void MessageAllocationMetadata::reserve(
   for (auto& field : _fields) {
     field.reserve(message, reflection, arena);
   }
+  // 预留过程会通过MutableMessage等接口留下存在性标记，还原为逻辑清空状态
+  message.Clear();
 }
 
 MessageAllocationMetadata::FieldAllocationMetadata::FieldAllocationMetadata(
